@@ -473,6 +473,7 @@ kll_sketch<T, C, A> kll_sketch<T, C, A>::deserialize(std::istream& is, const Ser
     read<uint8_t>(is); // skip unused byte
     if (!is.good()) throw std::runtime_error("error reading from std::istream");
   }
+  if (num_levels == 0) throw std::invalid_argument("Possible corruption: number of levels must be at least 1");
   vector_u32 levels(num_levels + 1, 0, allocator);
   const uint32_t capacity(kll_helper::compute_total_capacity(k, m, num_levels));
   if (is_single_item) {
@@ -558,6 +559,7 @@ kll_sketch<T, C, A> kll_sketch<T, C, A>::deserialize(const void* bytes, size_t s
     ptr += copy_from_mem(ptr, num_levels);
     ptr += sizeof(uint8_t); // skip unused byte
   }
+  if (num_levels == 0) throw std::invalid_argument("Possible corruption: number of levels must be at least 1");
   vector_u32 levels(num_levels + 1, 0, allocator);
   const uint32_t capacity(kll_helper::compute_total_capacity(k, m, num_levels));
   if (is_single_item) {
